@@ -250,6 +250,14 @@ func subst(text string, m Mode) string {
 		}
 		r = r[:i] + e + r[i+j+len(")»"):]
 	}
+	// explicitly instantiated API calls
+	if m.Ref {
+		r = strings.ReplaceAll(r, "«Yield[int]»", "ʏ.Yield")
+		r = strings.ReplaceAll(r, "«YieldFrom[int]»", "ʏ.YieldFrom")
+	} else {
+		r = strings.ReplaceAll(r, "«Yield[int]»", m.api("Yield")+"[int]")
+		r = strings.ReplaceAll(r, "«YieldFrom[int]»", m.api("YieldFrom")+"[int]")
+	}
 	if m.Ref {
 		r = strings.ReplaceAll(r, "«Yield»", "ʏ.Yield")
 		r = strings.ReplaceAll(r, "«YieldFrom»", "ʏ.YieldFrom")
